@@ -2483,6 +2483,10 @@ class MultiUserChannelMatrixExtInt(  # pylint: disable=R0904
         # A matrix with the path loss from each transmitter to each
         # receiver.
         self._pathloss_matrix = pathloss_matrix
+        # The channel matrices with the path loss applied must be calculated
+        # again for the new path loss
+        self._big_H_with_pathloss = None
+        self._H_with_pathloss = None
 
         if pathloss_matrix is None:
             self._pathloss_matrix = None
